@@ -3,7 +3,7 @@
 //! (original vs transformed program, accept/reject and every output bit, both back ends).
 
 use super::c01::corpus_files;
-use super::progcase::{Case, feat_for, input_fn, norm};
+use super::progcase::{feat_for, input_fn, norm};
 use super::{drive, replay_one};
 use crate::gens::core::*;
 use crate::run::{Backend, RunError, run_program};
@@ -317,51 +317,6 @@ pub fn relayout(src: &str, rng: &mut Rng) -> String {
     out
 }
 
-/// redundant parentheses around parenthesised groups: `(x)` -> `((x))`, on the printer's output
-pub fn reparen(src: &str, rng: &mut Rng) -> String {
-    // wrap balanced (...) groups that are not call argument lists / parameter lists:
-    // the printer emits `(` directly after a space, `(`, `{`, `,` or at line start for grouping parens
-    let chars: Vec<char> = src.chars().collect();
-    let mut open_at: Vec<(usize, bool)> = vec![];
-    let mut wrap: Vec<(usize, usize)> = vec![];
-    for (i, c) in chars.iter().enumerate() {
-        match c {
-            '(' => {
-                let prev = chars[..i].iter().rev().find(|x| **x != ' ').copied().unwrap_or('\n');
-                let grouping = !(prev.is_alphanumeric() || prev == '_' || prev == ')' || prev == '}' || prev == ']');
-                // `if (` conditions stay as they are
-                let before: String = chars[..i].iter().rev().take(4).collect::<String>().chars().rev().collect();
-                let is_if = before.trim_end().ends_with("if");
-                open_at.push((i, grouping && !is_if));
-            }
-            ')' => {
-                if let Some((s, g)) = open_at.pop()
-                    && g
-                    && rng.chance(1, 4)
-                {
-                    wrap.push((s, i));
-                }
-            }
-            _ => {}
-        }
-    }
-    let mut ins_open: Vec<usize> = wrap.iter().map(|w| w.0).collect();
-    let mut ins_close: Vec<usize> = wrap.iter().map(|w| w.1).collect();
-    ins_open.sort();
-    ins_close.sort();
-    let mut out = String::new();
-    for (i, c) in chars.iter().enumerate() {
-        if ins_open.binary_search(&i).is_ok() {
-            out.push('(');
-        }
-        out.push(*c);
-        if ins_close.binary_search(&i).is_ok() {
-            out.push(')');
-        }
-    }
-    out
-}
-
 // ------------------------------------------------------------------ oracle
 
 pub struct Checked {
@@ -489,7 +444,7 @@ pub fn run(args: &Args, out: &mut Out) {
                 "rename-compiler-like" => rename(&prog, rng, 1).print(),
                 "rename-case" => rename(&prog, rng, 2).print(),
                 "annotate" => annotate(&prog).print(),
-                "parens" => reparen(&original, rng),
+                "parens" => prog.print_with(Some(rng.next() | 1)),
                 _ => relayout(&original, rng),
             };
             Some(MCase { original, transformed, transformation: which.into(), n: *rng.pick(&[8usize, 24]), input_seed: rng.next(), path: None, scheduler: false })
